@@ -37,6 +37,7 @@ MANIFEST = dict(
 CASE_MS = 5000
 PAREN_KEY = "F77"             # exponential parse time in '(' nesting (known finding, id assigned by main)
 PAREN_SIG_DEPTH = 14
+INDEX_KEY = None             # panic on a positional index >= 2^64 (`x.18446744073709551616`); id to be assigned
 
 
 def enc(text):
@@ -281,6 +282,13 @@ def run(ctx):
             ctx.violation(obj)
             unmatched += 1
             continue
+        if kind == "crash" and is_index_overflow(text, o) and INDEX_KEY:
+            f = ctx.findings.get(INDEX_KEY)
+            if f and f.get("status") == "known" and f.get("property") == ctx.pid:
+                known += 1
+                ctx.violation({"kind": "impl-violation", "oracle": "no-panic", "input": text[:500], "outcome": o, "matched_signature": INDEX_KEY,
+                               "replay_line": enc(text)}, finding_key=INDEX_KEY)
+                continue
         unmatched += 1
         if kind == "crash":
             pred = (lambda key: (lambda x: outcome_key(x) == key))(outcome_key(o))
@@ -370,6 +378,15 @@ def replay(ctx, front):
         is_paren = o1.startswith("(timeout") and c18gen.paren_depth(text) >= PAREN_SIG_DEPTH
         ctx.violation({"kind": "impl-violation", "input": text[:2000], "replay_line": enc(text), "outcome": o1, "second_outcome": o2,
                        "position": why}, finding_key=PAREN_KEY if is_paren else None)
+
+
+def is_index_overflow(text, o):
+    """signature of the positional-index overflow: a panic inside parser.rs on a text that has a digit
+    run of value >= 2^64 directly after a '.'"""
+    import re
+    if "(panic \"quiver-compiler/src/parser.rs:" not in o:
+        return False
+    return any(int(m.group(1)) >= 2 ** 64 for m in re.finditer(r"\.([0-9]{20,})", text))
 
 
 def shrink_position(front, text):
